@@ -15,7 +15,7 @@ CHUNK = 4
 RECHECK_MOD = 53
 PROBES = ['cut_in_header', 'cut_in_threadmap', 'cut_in_stackshot_scan', 'cut_in_chunkhdr', 'cut_in_record',
           'cut_at_record_boundary', 'cut_in_block', 'cut_in_pad', 'eio_fired', 'count_limit', 'v2', 'v3',
-          'cut_in_event_tag_scan', 'cli_run', 'many_chunks']
+          'cut_in_event_tag_scan', 'cli_run', 'many_chunks', 'dump_with_orphan_ends']
 RULE = ('one run = one simulated dump (SimKernel threads -> merged stream -> v2/v3 writer) with every cut offset '
         '0..len (thorough) or all structure boundaries +-2 plus a seeded sample (quick), each parsed through SimReader '
         'under a read budget of 2*len+4096 calls and 3*len+4096 bytes; non-trivial = the dump holds >= 1 record and >= 1 cut landed '
@@ -36,6 +36,21 @@ def generate(rng, index, tier):
     scn = {'threads': threads, 'schedule': kernel.draw_schedule(rng, per, rng.pick(kernel.SHAPES)),
            't0': (rng.randrange(1, 1 << 40) << 8) | rng.randrange(1, 256)}
     nrec = sum(len(p) for p in per)
+    if rng.chance(0.4):
+        # the dump itself starts / ends in the middle of operations (ring buffer wrapped, lost records): orphan ENDs at the
+        # start and unfinished STARTs at the end - what one parse leaves in flight must never show up in another
+        fl = []
+        for _f in range(rng.randint(1, 3)):
+            k = rng.pick(['wrap', 'drop', 'kill', 'tail'])
+            if k == 'wrap':
+                fl.append({'k': 'wrap', 'n': rng.randint(1, max(1, nrec // 3))})
+            elif k == 'drop':
+                fl.append({'k': 'drop', 'at': rng.randrange(max(1, nrec))})
+            elif k == 'kill':
+                fl.append({'k': 'kill', 'th': rng.randrange(nthreads), 'after': rng.randint(1, 6)})
+            else:
+                fl.append({'k': 'tail', 'n': rng.randint(1, max(1, nrec // 3))})
+        scn['faults'] = fl
     scn['writer'] = worlds.gen_writer(rng, version, threads, nrec)
     if version == 3 and rng.chance(0.2):
         # a writer that flushes very often: many small (and empty) event chunks
@@ -131,7 +146,12 @@ def execute(scn):
 
     def bump(k, v=1):
         stats[k] = stats.get(k, 0) + v
-    table, stream = worlds.build_stream(scn)
+    fired = {}
+    table, stream = worlds.build_stream(scn, fired)
+    for fk, fv in fired.items():
+        bump('fault:' + fk, fv)
+    if fired:
+        bump('probe:dump_with_orphan_ends')
     rb = [kernel.to_bytes(r) for r in stream]
     data, layout = worlds.build_file(scn['writer'], rb)
     n = len(data)
@@ -271,6 +291,19 @@ def execute(scn):
                 for k in [c for c in cuts if c % 7 == 0][:12]:
                     part, exc = run_cli(data[:k], cmd)
                     bump('fault:truncate')
+                    # on the SAME cut file: a count limit prints a prefix of what the unlimited run prints, and the unlimited
+                    # run prints every line the library reported before it stopped
+                    for c in (1, 3):
+                        lim, _e = run_cli(data[:k], cmd + ['-c', str(c)])
+                        if not part.startswith(lim):
+                            viols.append({'tag': 'cli-count-limit-changes-lines', 'sig': cmd[0] + ':cut',
+                                          'detail': 'file cut at %d: -c %d printed %r..., unlimited printed %r...' % (k, c, lim[:80], part[:80])})
+                    if cmd[0] == 'kevents':
+                        pl = common.new_parser()
+                        libitems, _le = common.drain(lambda: pl.formatted_kevents(SimReader(data[:k])))
+                        if part != ''.join(x + '\n' for x in libitems):
+                            viols.append({'tag': 'cli-loses-reported-lines', 'sig': cmd[0],
+                                          'detail': 'file cut at %d: the library reported %d lines before stopping, the CLI printed %d' % (k, len(libitems), part.count('\n'))})
                     if not whole.startswith(part):
                         viols.append({'tag': 'cli-not-prefix', 'sig': 'v%d:%s' % (ver, cmd[0]),
                                       'detail': 'file cut at %d: CLI printed text that is not a prefix of its output on the whole file' % k})
